@@ -1,6 +1,6 @@
 (* C11 - a consumer ends with exactly one terminal message and nothing after it.
    This file only pins statements. *)
-From Amq Require Import Lib.Base Gen.Consts Model.Wire Model.Frames Model.OutBuf Model.Collector Model.Slots Model.Core Spec.Slots Spec.Content Proofs.Slots Proofs.OutBuf Proofs.Collector Proofs.CoreContent Proofs.CoreInv Proofs.CoreMore Model.CancelRace Proofs.CancelRace.
+From Amq Require Import Lib.Base Gen.Consts Model.Wire Model.Frames Model.OutBuf Model.Collector Model.Slots Model.Core Spec.Slots Spec.Content Proofs.Slots Proofs.OutBuf Proofs.Collector Proofs.CoreContent Proofs.CoreInv Proofs.CoreMore Model.CancelRace Proofs.CancelRace Check.Core Proofs.Examples.
 
 (* CancelOk for tag: the caller gets the reply, the consumer's queue gets ClientCancelled appended (history = history ++ [ClientCancelled]), its sender is dropped in the same step, the tag leaves the table *)
 Theorem C11_client_cancel : forall (n : N) (tag dbg : str) (c : core) (s : slot) (q : N), steady c -> n <> 0 -> alookup n (c_slots c) = Some s -> lookup_tag tag (s_consumers s) = Some q -> q <> s_reply s -> has_room (s_reply s) (c_qs c) -> receivable q (c_qs c) -> exists c' : core, process c (FMethod n (MCancelOk tag), dbg) = (OOk, c') /\ (exists s' : slot, alookup n (c_slots c') = Some s' /\ lookup_tag tag (s_consumers s') = None) /\ (exists qu qu' : queue, alookup q (c_qs c) = Some qu /\ alookup q (c_qs c') = Some qu' /\ q_hist qu' = q_hist qu ++ [IClientCancelled] /\ q_tx qu' = false).
@@ -34,6 +34,18 @@ Proof. exact released_after_notice. Qed.
 Theorem C11_answer_first_refuted : exists sched : list actor, r_failed (rrun (rinit order_before) sched) = true.
 Proof. exact reply_first_refuted. Qed.
 
+(* non-vacuity of C11_cancel_ok_effect: the server confirms the cancel of consumer "t" on
+   channel 1: the tag leaves the table, the consumer's queue ends with ClientCancelled and has
+   no sender left, the caller has its CancelOk, consumer "u" on channel 2 is untouched *)
+Example C11_example :
+  let '(o, c) := process ex_two_channels (FMethod 1 (MCancelOk [116]), []) in
+  (o, map (fun '(n, s) => (n, s_consumers s)) (c_slots c)) = (OOk, [(1, []); (2, [([117], 4298113024)])]) /\
+  ex_queues c = [(2, [IReplyConsumeOk [116] 4297064448; IReplyMethod (MCancelOk [116])], true);
+                 (4297064448, [IClientCancelled], false);
+                 (3, [IReplyConsumeOk [117] 4298113024], true); (4298113024, [], true);
+                 (1, [IAllocOk 1; IAllocOk 2], true); (0, [], true)].
+Proof. vm_compute. repeat split. Qed.
+
 Check C11_client_cancel : forall (n : N) (tag dbg : str) (c : core) (s : slot) (q : N), steady c -> n <> 0 -> alookup n (c_slots c) = Some s -> lookup_tag tag (s_consumers s) = Some q -> q <> s_reply s -> has_room (s_reply s) (c_qs c) -> receivable q (c_qs c) -> exists c' : core, process c (FMethod n (MCancelOk tag), dbg) = (OOk, c') /\ (exists s' : slot, alookup n (c_slots c') = Some s' /\ lookup_tag tag (s_consumers s') = None) /\ (exists qu qu' : queue, alookup q (c_qs c) = Some qu /\ alookup q (c_qs c') = Some qu' /\ q_hist qu' = q_hist qu ++ [IClientCancelled] /\ q_tx qu' = false).
 Check C11_server_cancel : forall (n : N) (tag : str) (nowait : bool) (dbg : str) (c : core) (s : slot) (q : N), steady c -> n <> 0 -> alookup n (c_slots c) = Some s -> lookup_tag tag (s_consumers s) = Some q -> receivable q (c_qs c) -> exists c' : core, process c (FMethod n (MCancel tag nowait), dbg) = (OOk, c') /\ c_out c' = (if nowait then c_out c else ob_append (c_out c) (ser_cancel_ok n tag)) /\ (exists s' : slot, alookup n (c_slots c') = Some s' /\ lookup_tag tag (s_consumers s') = None) /\ (exists qu qu' : queue, alookup q (c_qs c) = Some qu /\ alookup q (c_qs c') = Some qu' /\ q_hist qu' = q_hist qu ++ [IServerCancelled] /\ q_tx qu' = false).
 Check C11_nothing_after : forall (n : N) (tag : str) (dtag : N) (red : bool) (exch rk : str) (props : N) (dbg : str) (c : core) (s : slot), steady c -> n <> 0 -> alookup n (c_slots c) = Some s -> s_coll s = CStart (CDeliver tag dtag red exch rk) -> lookup_tag tag (s_consumers s) = None -> fst (process c (FHeader n 0 props, dbg)) = OErr (EUnknownConsumerTag n tag).
@@ -51,3 +63,4 @@ Print Assumptions C11_no_panic.
 Print Assumptions C11_notice_before_release.
 Print Assumptions C11_released_after_notice.
 Print Assumptions C11_answer_first_refuted.
+Print Assumptions C11_example.
